@@ -453,8 +453,8 @@ def check_selector_c09(ctx, sel):
     want_mask = Cond.cmp(">", a_e, sym(names[2])) & Cond.cmp("<", a_s, sym(names[3]))
     got, wnt = (lin_set(mask) if mask is not None else None), lin_set(want_mask)
     ctx.check(got is not None and got == wnt, rule, "overlap-mask", st.loc(), "exactly the candidates overlapping the chosen anomaly are removed: a_end > start and a_start < end", found=repr(mask), expected=repr(want_mask))
-    okz = isinstance(val, Num) and val.nf is not None and (val.nf.is_zero() or nf_equal(val.nf, thr) or nf_equal(val.nf, -sym("inf"))) and not st.data.get("aug")
-    ctx.check(okz, rule, "zeroing", st.loc(), "removed candidates get a score that can never exceed the threshold again", found=repr(val))
+    okz = isinstance(val, Num) and val.nf is not None and (nf_equal(val.nf, thr) or nf_equal(val.nf, -sym("inf"))) and not st.data.get("aug")
+    ctx.check(okz, rule, "zeroing", st.loc(), "removed candidates get a score that can never exceed the threshold again, whatever its sign: -inf or the threshold itself (F-30: 0.0 still exceeds a tuned threshold of -1e-13 and the loop never ends)", found=repr(val))
     srt = [e for e in p.events if e.kind == "list_sort"]
     ctx.check(len(srt) == 1 and apps and srt[0].data["lst"] is apps[0].data["lst"] and p.value is apps[0].data["lst"] and not srt[0].loops, rule, "sorted-result", srt[0].loc() if srt else sel.loc(), "the collected anomalies are sorted and returned", found=repr(p.value))
 
